@@ -305,7 +305,7 @@ def check(ctx):
         ctx.inst('R6', sp, 'uplink-bytes', bool(datas) and datas <= forms, 'uplink bytes = (header,) + payload bytes; found %s' % sorted(datas))
         cs = [c for c in walk_own(sp.node) if isinstance(c, ast.Call) and dotted(c.func) == 'CPXPacket']
         kw = {k.arg: norm(k.value) for k in cs[0].keywords} if cs else {}
-        ctx.inst('R6', sp, 'uplink-routing', kw == {'destination': 'CPXTarget.STM32', 'function': 'CPXFunction.CRTP', 'data': 'raw'}, 'CRTP is tunnelled on function CRTP to the STM32; found %s' % kw)
+        ctx.inst('R6', sp, 'uplink-routing', {k_: v_ for k_, v_ in kw.items() if k_ != 'data'} == {'destination': 'CPXTarget.STM32', 'function': 'CPXFunction.CRTP'} and 'data' in kw, 'CRTP is tunnelled on function CRTP to the STM32; found %s' % kw)
         T = m.cls(path, '_CPXReceiveThread')
         rn = T.method('run')
         rcp = [c for c in walk_own(rn.node) if method_call(c, 'receivePacket')]
